@@ -209,6 +209,22 @@ def _gen_rehost(rng):
     na = rng.choice([2, 3])
     agents, comps, cbs = list(range(1, na + 1)), [0, 1], [1, 2]
     hist = {str(a): [] for a in agents}
+    if rng.random() < 0.5:
+        # variant (C27-directory-echo-erases-registration, fixed in /repo): the old host's un-publication is
+        # processed by the directory, THEN the new host registers and its publication is processed -- before the
+        # fix an un-publication the directory had sent to itself (channel 0 -> 0) was still waiting and erased it
+        hist["1"] = [["reg_agent", 1, addr_of(1)], ["reg_comp", 0, 1, addr_of(1)],
+                     ["unreg_comp", 0, rng.choice([None, 1])]]
+        hist["2"] = [["reg_agent", 2, addr_of(2)], ["reg_comp", 0, 2, addr_of(2)]]
+        if na == 3:
+            hist["3"] = [["sub_comp", 0, rng.choice([None, 1]), False]]
+        for _i in range(rng.randint(0, 3)):
+            a = rng.randint(1, na)
+            hist[str(a)].append(_gen_op(rng, a, na, "natural", agents, comps, cbs))
+        sched = [["D", -3, 3], ["D", 3, 0], ["D", -1, 1], ["D", -1, 1], ["D", 1, 0], ["D", 1, 0], ["D", 0, 3],
+                 ["D", -1, 1], ["D", 1, 0], ["D", 1, 0], ["D", -2, 2], ["D", -2, 2], ["D", 2, 0], ["D", 2, 0]]
+        return dict(n=na, hist=hist, seed=rng.randrange(10 ** 9), drain=rng.random() < 0.85, steps=rng.randint(5, 40),
+                    policy=rng.choice(["uniform", "drain", "newest"]), sched=sched)
     hist["1"] = [["reg_agent", 1, addr_of(1)], ["reg_comp", 0, 1, addr_of(1)], ["unreg_comp", 0, 1]]
     hist["2"] = [["reg_agent", 2, addr_of(2)], ["sub_comp", 0, rng.choice([None, 1, 2]), rng.random() < 0.3],
                  ["reg_comp", 0, 2, addr_of(2)]]
